@@ -15,7 +15,7 @@ import (
 func init() { register("C33", "exploration", runC33) }
 
 func runC33(c *ev.Ctx) {
-	c.Rule = "a bootstrapped instance gives a live epoch database (roots are registered from frame 2 upward so that a restart's Bootstrap, which replays known roots from frame 1, stays passive); the check then drives its *abft.Store directly with random sequences of 80 operations: AddRoot(selfParentFrame, event) with synthetic events of 4 creators (several roots per creator and frame = fork roots, registrations spanning 1..4 frames), GetFrameRoots(f) for populated, empty and future frames, epoch switches by Reset, and restarts (new Store over copies of the databases, possibly with another cache configuration); cache configurations RootsNum x RootsFrames from {0,1,2,3,100}^2. " +
+	c.Rule = "a bootstrapped instance gives a live epoch database (roots are registered from frame 2 upward so that a restart's Bootstrap, which replays known roots from frame 1, stays passive); the check then drives its *abft.Store directly with random sequences of 80 operations: AddRoot(selfParentFrame, event) with synthetic events of 4 creators (several roots per creator and frame = fork roots, registrations spanning 1..4 frames), GetFrameRoots(f) for populated, empty and future frames, epoch switches by Reset (to the next epoch number, or to the same or an earlier number again; the harness keeps epoch databases like on-disk databases named after the epoch, so only Drop removes their content), and restarts (new Store over copies of the databases, possibly with another cache configuration); cache configurations RootsNum x RootsFrames from {0,1,2,3,100}^2. " +
 		"Oracle: the returned slice, as a set of (creator, id), equals the model's set for that frame; every entry carries the queried frame; no entry twice; after an epoch switch every frame is empty. " +
 		"non-trivial = distinct sequences in which a frame was queried, then received another root (also through a multi-frame registration), then was queried again, with a cache smaller than the number of roots or frames in play"
 	c.Assumptions = []string{"each (event, frame) is registered once, as the orderer does", "AddRoot/GetFrameRoots are used from one goroutine (documented as not thread-safe)"}
@@ -104,7 +104,12 @@ func runC33(c *ev.Ctx) {
 				}
 				queried[f] = true
 			case k < 18:
-				epoch++
+				if r.Intn(2) == 0 {
+					epoch++
+				} else {
+					epoch = idx.Epoch(1 + r.Intn(int(epoch)+1)) // the same or an earlier epoch number is entered again: it must start empty too
+					c.Count("epoch_numbers_entered_again", 1)
+				}
 				log = append(log, fmt.Sprintf("Reset(epoch %d)", epoch))
 				if err := in.Reset(epoch, vals); err != nil {
 					fail("Reset: " + err.Error())
